@@ -23,8 +23,8 @@ from detsim.sched import HarnessError, Scheduler
 
 PROP = "C19"
 LEVEL = "exploration"
-RUNS = {"quick": 1600, "thorough": 40000}
-BUDGET_S = {"quick": 60, "thorough": 900}
+RUNS = {"quick": 3200, "thorough": 60000}
+BUDGET_S = {"quick": 90, "thorough": 1500}
 RULE = ("each evaluation is one simulated run: one shared parsed chart, 1-4 reader clients, "
         "3-25 read-only operations each, one seeded schedule. Distinct = distinct plan digest; "
         "non-trivial = >= 3 operations including >= 1 on an absent instrument/difficulty or a "
